@@ -21,7 +21,8 @@ RULE = ('A registry of public routines (distance / distance_fast, warping_paths(
         'call returns the identical result; (4) history leg: a pool of shared series, settings dicts and model objects, '
         'generated call sequences; every result must equal the result obtained with fresh copies of the original '
         'objects; (5) NumPy-free child for routines that do not need NumPy. Non-trivial: an argument is in a '
-        'non-canonical representation, or the call is a repeat / shares objects with an earlier call. Leg average-layout: the initial average of dba / dba_loop (both engines) as strided / reversed / Fortran / transposed view, array.array or list: same result as for a contiguous float64 array, average untouched.')
+        'non-canonical representation, or the call is a repeat / shares objects with an earlier call. Leg average-layout: the initial average of dba / dba_loop (both engines) as strided / reversed / Fortran / transposed view, array.array or list: same result as for a contiguous float64 array, average untouched.'
+        ' dba_loop with the C engine also without threshold (thr=None), without initial average, and with the initial average as given (first series of the caller).')
 ASSUMPTIONS = ['series are float64; values |x| <= 1e3; lengths <= 8', 'K-means / random choices are seeded inside the case']
 
 
